@@ -476,7 +476,10 @@ class Scen:
                 out.append((f"staged[{cat}] differs at {p!r}", None))
         for p in exp.u - real.u:
             f = wd.get(p)
-            if f is not None and f["cid"] == idx[p][1] and f["kind"] != idx[p][0]:
+            if any(a in wd and wd[a]["kind"] == "l" and wd[a]["res"][0] == "d" for a in ancestors(p)):
+                out.append((f"unstaged misses {p!r}: judged through a symlink that replaced its directory",
+                            "unstaged-misses:tracked-path-seen-through-symlinked-directory"))
+            elif f is not None and f["cid"] == idx[p][1] and f["kind"] != idx[p][0]:
                 if "l" in (f["kind"], idx[p][0]):
                     out.append((f"unstaged misses type change (same blob) at {p!r}", "unstaged-misses:type-change-same-blob"))
                 else:
@@ -1341,6 +1344,33 @@ def _stream_racy(ctx, batch):
         sc.close()
 
 
+def _stream_linkdir(ctx, batch, stream="linkdir"):
+    """Direct oracle only (outside the model's domain): a tracked directory replaced by a symbolic link to another
+    directory; the three-way comparison and git say the tracked paths are gone."""
+    rng = ctx.rng
+    for i in range(ctx.budget(6)):
+        names = rng.sample([b"e", b"f", b"g h", b"\xc3\xa9"], rng.randint(1, 3))
+        ents = [[hx(b"d/" + n), rng.choice(["r", "x"]), gen_content(rng)] for n in names]
+        for ph, k, spec in list(ents):
+            n = unhx(ph)[2:]
+            r = rng.random()
+            if r < 0.5:
+                ents.append([hx(b"o/" + n), k, spec])                  # same file in the other directory
+            elif r < 0.8:
+                ents.append([hx(b"o/" + n), "r", {"hex": hx(b"different " + n)}])
+        ents.append([hx(b"o/keep"), "r", {"hex": hx(b"keep")}])
+        sc = Scen(ctx, stream, "linkdir")
+        try:
+            sc.exec({"op": "tree", "name": "t", "entries": ents})
+            sc.exec({"op": "fresh", "tree": "t"})
+            if not sc.failed:
+                sc.exec({"op": "symlink", "path": hx(b"d"), "target": hx(rng.choice([b"o", b"./o", b"o/"]))})
+                sc.exec({"op": "status", "git": True})
+            ctx.count(stream, str(ents), True)
+        finally:
+            batch.add(sc)
+
+
 def _run_corpus(ctx, batch):
     d = core.VERIF / "corpus" / "C18"
     if not d.exists():
@@ -1389,6 +1419,7 @@ def run(ctx: core.Ctx):
     _stream_roundtrip(ctx, batch)
     _stream_switch(ctx, batch)
     _stream_edits(ctx, batch)
+    _stream_linkdir(ctx, batch)
     _stream_racy(ctx, batch)
     batch.flush()
 
